@@ -193,6 +193,9 @@ func checkC11(c *Ctx) error {
 	accepted := make([]bool, len(cases))
 	// confirm: every candidate violation found in-process is re-run through the real CLI
 	confirm := func(i int, stillBad func(core.CompileResult) bool) bool {
+		if !c.ConfirmBudget() {
+			return false
+		}
 		res, err := c.ConfirmCLI(dirs[i])
 		if err != nil {
 			return false
